@@ -11,7 +11,7 @@
 
 use crate::arg;
 use crate::model::*;
-use crate::render::SCALE;
+use crate::render::{RSCALE, SCALE};
 use crate::world::World;
 use rand::rngs::StdRng;
 use rand::seq::SliceRandom;
@@ -292,7 +292,7 @@ impl Driver {
         let mult = [1i64, 1, 2, 5][self.rng.gen_range(0..4)];
         let inc = 10i64.pow(prec as u32) * mult;
         let fee_profile = self.profile == Profile::Fee;
-        let rates = [500i64, 1000, 2500, 3000, 3333, 5000, 125, 10000, 1];
+        let rates = [50_000i64, 100_000, 250_000, 300_000, 333_300, 500_000, 12_500, 1_000_000, 100, 1_250, 333_000, 5_000, 125];
         let mut pair = |d: &mut Driver, accts: &[&str], p: f64| -> (Opt<DecT>, Opt<String>) {
             if d.chance(p) {
                 let r = rates[d.rng.gen_range(0..rates.len())];
@@ -441,7 +441,7 @@ impl Driver {
         if self.chance(0.04) {
             total += 1;
         }
-        let due = if cfg.bidfee.some { half_up(cfg.bidfee.rate.n.max(0) * total, SCALE) } else { 0 };
+        let due = if cfg.bidfee.some { half_up(cfg.bidfee.rate.n.max(0) * total, RSCALE) } else { 0 };
         let quote = self.pick(&["q1", "q1", "q2"]).to_string();
         let mut fee = if due > 0 { FeeT { some: true, amt: due, denom: quote.clone() } } else { FeeT::none() };
         if self.chance(0.05) {
@@ -638,8 +638,8 @@ impl Driver {
                 executors = some(v);
             }
             2 | 3 => {
-                let cur = if st.cfg.askfee.some { st.cfg.askfee.rate.n } else { 2500 };
-                let n = if self.chance(0.7) { cur } else { 1000 };
+                let cur = if st.cfg.askfee.some { st.cfg.askfee.rate.n } else { 250_000 };
+                let n = if self.chance(0.7) { cur } else { 100_000 };
                 ar = some(self.spelling(n));
                 aa = some(self.pick(&["askfee1", "askfee2", "multi1"]).to_string());
                 if self.chance(0.15) {
@@ -651,8 +651,8 @@ impl Driver {
                 }
             }
             4 | 5 => {
-                let cur = if st.cfg.bidfee.some { st.cfg.bidfee.rate.n } else { 2500 };
-                let n = if self.chance(0.7) { cur } else { 500 };
+                let cur = if st.cfg.bidfee.some { st.cfg.bidfee.rate.n } else { 250_000 };
+                let n = if self.chance(0.7) { cur } else { 50_000 };
                 br = some(self.spelling(n));
                 ba = some(self.pick(&["bidfee1", "bidfee2", "multi2"]).to_string());
                 if self.chance(0.15) {
@@ -690,7 +690,7 @@ impl Driver {
         match self.rng.gen_range(0..6) {
             0 => m.approvers = some(vec!["appr1".into(), "appr2".into()]),
             1 => {
-                m.askfee_rate = some(dec(2500, "plain"));
+                m.askfee_rate = some(dec(250_000, "plain"));
                 m.askfee_acct = some("askfee2".into());
             }
             2 => {
@@ -698,7 +698,7 @@ impl Driver {
                 m.bidfee_acct = some(String::new());
             }
             3 => m.askattrs = some(vec![]),
-            4 => m.bidfee_rate = some(dec(2500, "plain")),
+            4 => m.bidfee_rate = some(dec(250_000, "plain")),
             _ => {}
         }
         m
@@ -759,7 +759,7 @@ impl Driver {
                         msg.askfee_acct = some("askfee1".into());
                     }
                     _ => {
-                        msg.bidfee_rate = some(dec(2500, "plain"));
+                        msg.bidfee_rate = some(dec(250_000, "plain"));
                         msg.bidfee_acct = some(String::new());
                     }
                 }
